@@ -14,6 +14,8 @@ Decided (T4 lock-state dataflow + who-may-access, sound over-approximation of ev
   L6 guards are never leaked (no mem::forget / ManuallyDrop / Box::leak of guard-owning values), futures are never
      cancelled (no select!/timeout/abort in the workspace), so RAII releases on every exit.
 Obligations = every acquisition site and every call/await made while a guard may be held.
+  L5 also: a successful registration records everything the next synchronize compares (shared with C11.R4) — a missing record is a
+  second registration.
 """
 from ..flow import arg_origins, origins
 from ..locks import acquisition_of, analyse, classes_of, direct_acquisitions, guard_locals, may_acquire
